@@ -1,2 +1,3 @@
 -- Root of the `TSSVerif` library.
 import TSSVerif.Model.Wire
+import TSSVerif.Model.WireDisc
